@@ -32,6 +32,8 @@ pub struct Scenario {
     pub emmyrc: Value,
     /// on-disk modifications the harness may perform as scheduler events: (rel path, Some(text)|None=delete)
     pub disk_events: Vec<(String, Option<String>)>,
+    /// keep the server's initialisation window open: its end is a scheduler event
+    pub init_as_event: bool,
     pub max_steps: usize,
 }
 
@@ -45,6 +47,7 @@ impl Scenario {
             client_answers: vec![Some(Value::Null)],
             emmyrc: json!({}),
             disk_events: vec![],
+            init_as_event: false,
             max_steps: 400,
         }
     }
@@ -246,7 +249,10 @@ async fn drive(scn: &Scenario, prefix: &[usize], root: PathBuf) -> EndState {
     prof("  emmyrc", &mut t);
     init_analysis(ctx.analysis(), ctx.status_bar(), ctx.file_diagnostic(), ctx.lsp_features(), folders, emmyrc.clone(), Vec::new()).await;
     prof("  init_analysis", &mut t);
-    let _ = init_tx.send(());
+    let mut init_tx = Some(init_tx);
+    if !scn.init_as_event {
+        let _ = init_tx.take().unwrap().send(());
+    }
 
     let mut seen: Vec<Seen> = Vec::new();
     let mut outstanding: Vec<RequestId> = Vec::new();
@@ -315,6 +321,9 @@ async fn drive(scn: &Scenario, prefix: &[usize], root: PathBuf) -> EndState {
         if !disk_left.is_empty() {
             env.push(Choice::Disk { index: scn.disk_events.len() - disk_left.len() });
         }
+        if init_tx.is_some() {
+            env.push(Choice::InitDone);
+        }
         let names = verif::object_names();
         let (en, running) = ctl.enabled(&env);
         if en.is_empty() {
@@ -334,12 +343,17 @@ async fn drive(scn: &Scenario, prefix: &[usize], root: PathBuf) -> EndState {
             }
             break;
         }
-        let mut extra = (outstanding.len() as u64) << 8 | disk_left.len() as u64;
+        let mut extra = (outstanding.len() as u64) << 8 | disk_left.len() as u64 | (init_tx.is_some() as u64) << 20;
         for (d, _) in verif::timers() {
             extra = extra.wrapping_mul(1099511628211).wrapping_add(d);
         }
         let Some(ch) = ctl.decide(&en, running, &names, extra) else { break };
         match &ch {
+            Choice::InitDone => {
+                if let Some(tx0) = init_tx.take() {
+                    let _ = tx0.send(());
+                }
+            }
             Choice::Disk { .. } => {
                 mark_disk_dirty();
                 let (rel, text) = disk_left.remove(0);
@@ -449,7 +463,7 @@ async fn apply(ch: &Choice, t0: tokio::time::Instant, _tx: &tokio::sync::mpsc::U
             verif::note_timer_fired(*deadline_ms);
             tokio::time::advance(std::time::Duration::from_millis(d)).await;
         }
-        Choice::ClientAnswer { .. } | Choice::Disk { .. } => {}
+        Choice::ClientAnswer { .. } | Choice::Disk { .. } | Choice::InitDone => {}
     }
 }
 
